@@ -3,7 +3,7 @@
 # harnesses exercise is compiled here from $(REPO); header dependencies are
 # tracked (-MMD), so an edited header or .c file is picked up by `make`.
 REPO ?= /repo
-B    := build
+B    ?= build
 CC   := gcc
 CXX  := g++
 
